@@ -35,7 +35,7 @@ COMPONENTS = {
     "real": ["eolib.packet.PacketSequencer", "eolib.packet.sequence_start.*", "EoWriter/EoReader for every message"],
     "stub_or_harness": ["SimNet (virtual-time FIFO network)", "client/server node scripts", "SimRandom"],
 }
-PROBES = ["update_at_counter_9", "update_at_counter_0", "back_to_back_updates", "update_with_packets_in_flight",
+PROBES = ["user_start_derived_from_library_class", "update_at_counter_9", "update_at_counter_0", "back_to_back_updates", "update_with_packets_in_flight",
           "three_wraparounds_between_updates", "reconnect", "sequence_sent_as_short", "two_pings_outstanding",
           "request_from_another_thread"]
 FAULT_KINDS = ["latency_jitter", "start_update_mid_burst", "reconnect", "start_unreadable_during_request", "update_during_request"]
@@ -82,7 +82,7 @@ def generate(streams, tier):
         else:
             local.append(["next_during_outage"])
     return {"script": script, "local": local, "net_seed": rng.randrange(1 << 30), "draw_seed": rng.randrange(1 << 30),
-            "jitter": rng.choice([0, 5, 50, 400])}
+            "jitter": rng.choice([0, 5, 50, 400]), "start_base": rng.randrange(5)}
 
 
 class _Session:
@@ -293,8 +293,20 @@ def run_local(plan, s, res, tr):
     from ..seams import SimFault
     state = {"outage": False, "on_read": None}
 
-    class ProbeStart(s.ss.SequenceStart):
+    # the application's own start class: derived from the abstract base or from one of the library's classes
+    # (then constructed properly, with a different underlying value - the overridden `value` is what counts)
+    base_kind = plan.get("start_base", 0) % 5
+    base = [s.ss.SequenceStart, getattr(s.ss, "SimpleSequenceStart", s.ss.SequenceStart), s.ss.AccountReplySequenceStart,
+            s.ss.InitSequenceStart, s.ss.PingSequenceStart][base_kind]
+    if base_kind:
+        res.count("probe.user_start_derived_from_library_class")
+
+    class ProbeStart(base):
         def __init__(self, v):
+            if base_kind in (1, 2):
+                super().__init__(7)
+            elif base_kind in (3, 4):
+                super().__init__(7, 1, 2)
             self._v = v
 
         @property
